@@ -32,7 +32,7 @@ def register(reg):
     def dfc1_params(cfg):
         return [('p', Int()), ('coord', Arr('int', cfg.get('dtype', 'int64') if isinstance(cfg.get('dtype'), str) else 'int64'))]
 
-    reg.add(Contract(HC + '::distance_from_coordinate', dfc1_params, returns=Int(),
+    reg.add(Contract('<math-view>::distance_from_coordinate', dfc1_params, returns=Int(),
                      requires=lambda c: [('p-range', And(c.p >= 1, c.p * c.coord.n <= 62)), ('dimension', c.coord.n == c.config['n']),
                                          ('in-grid', in_grid(c.p, [c.coord[j] for j in range(c.config['n'])]))],
                      ensures=lambda c, r: [('value', r == enc(c.config['n'], c.p, [c.coord[j] for j in range(c.config['n'])])),
@@ -90,7 +90,7 @@ def register(reg):
     def dec(n, j, p, h):
         return SInt(DEC[(n, j)](p.z(), h.z()))
 
-    reg.add(Contract(HC + '::coordinate_from_distance', [('p', Int()), ('n', Int()), ('h', Int())],
+    reg.add(Contract('<math-view>::coordinate_from_distance', [('p', Int()), ('n', Int()), ('h', Int())],
                      returns=lambda c: Arr('int', 'int64', conc_len=c.config['n']),
                      requires=lambda c: [('p-range', And(c.p >= 1, c.p * c.n <= 62)), ('dimension', c.n == c.config['n']),
                                          ('h-range', And(c.h >= 0, c.h < pow2(c.config['n'] * c.p)))],
